@@ -15,6 +15,7 @@ def pat_names(names):
     pn = {}
     for n in names:
         pn["n:" + n] = {n}
+        pn["!n:" + n] = {n, "!neg"}      # negation of the base-name pattern (marker: see MhlHistory.Ign)
         pn["d:" + n] = set()  # trailing-slash pattern: directory entry itself not matched; see DESIGN
     pn["g:tmp"] = {n for n in names if n.endswith("_t")}
     pn[".DS_Store"] = {n for n in names if n == "dsstore"}
